@@ -318,7 +318,9 @@ func TestC18(t *testing.T) {
 		}},
 		{"DeleteRouter(known)", func(s *storage.JSONFileStorage) { _ = s.DeleteRouter(fakeAddr(3 + 1000).IP) }},
 		{"SaveMapping(new)", func(s *storage.JSONFileStorage) { _ = s.SaveMapping("fresh.myco", fakeAddr(9).IP) }},
-		{"SaveMapping(known)", func(s *storage.JSONFileStorage) { _ = s.SaveMapping("name0-"+strFlavour(1, 0)+".myco", fakeAddr(99).IP) }},
+		{"SaveMapping(known)", func(s *storage.JSONFileStorage) {
+			_ = s.SaveMapping("name0-"+strFlavour(1, 0)+".myco", fakeAddr(99).IP)
+		}},
 		{"DeleteMapping(known)", func(s *storage.JSONFileStorage) { _ = s.DeleteMapping("name1-" + strFlavour(1, 1) + ".myco") }},
 		{"QueryMappings", func(s *storage.JSONFileStorage) { _, _ = s.QueryMappings("name") }},
 		{"Prune(2)", func(s *storage.JSONFileStorage) { s.Prune(2) }},
@@ -375,6 +377,11 @@ func TestC18(t *testing.T) {
 	}
 	rep.Bounds["states"] = len(specs) + len(bulk)
 	rep.Bounds["previous_file_situations"] = len(prevs)
+	{
+		e := shutdownWindow(t, rep, env)
+		evals += e
+		nontrivial += e
+	}
 	rep.Add(evals, nontrivial, 0, 0)
 	if err := rep.Finish(env); err != nil {
 		t.Fatal(err)
